@@ -54,6 +54,23 @@ reg("C16",
     "bounded-exhaustive enumeration + recorder naming oracle + runtime trace differential", "DESIGN.md §4 C16")
 
 
+reg("C03",
+    "Exploration: random signatures of the supported class are compiled by real rustc (fix-point compilation so one failing case "
+    "cannot mask another); witness lines coerce the function and <App as Trait>::method to one fn-pointer type (parameter types, "
+    "lifetime relations, return type, unsafe/extern); the compiled clients are then run under the C01 trace oracle.",
+    "The compile half is decided by observing the compiler process that executes the macro; fn-pointer coercion accepts a more general method; async output types are pinned at run time.",
+    "compiler-run monitor (diagnostics per generated case) + fn-pointer witnesses + runtime trace differential", "DESIGN.md §4 C03")
+
+
+reg("C17",
+    "Exploration with a metamorphic oracle: groups of invocations that the statement declares equivalent (option order, bare vs "
+    "= true, = false vs omitted, entrait_export vs export, unimock cargo feature vs unimock option) are expanded on identical "
+    "item tokens in real rustc processes (two builds for the feature); the recorder's outputs inside a class must be "
+    "token-identical. The option x target acceptance table is enumerated completely.",
+    "Trusts the recorder; equivalence is checked on the sampled items and option subsets, the acceptance table exhaustively (one item per target).",
+    "expansion recorder + metamorphic equality monitor + exhaustive acceptance table", "DESIGN.md §4 C17")
+
+
 def manifest():
     hooks_commits = subprocess.run(["git", "-C", "/repo", "log", "--format=%H", "--grep=^verif hook"],
                                    stdout=subprocess.PIPE, text=True).stdout.split()
